@@ -16,7 +16,7 @@ Definition ev_ok (e : event) : bool :=
   | EvCall c _ => allowed F c                    (* only exposed functions / whitelisted field-type constructors *)
   | EvGetattr _ n => negb (starts_dunder n)      (* no double-underscore attribute read *)
   | EvOp _ => true
-  | EvHelperGetattr _ => true                    (* reads done BY a whitelisted helper (see C09_refuted_helper_dunder) *)
+  | EvHelperGetattr n => negb (starts_dunder n)  (* field reads done BY a whitelisted helper: no double-underscore name either *)
   end.
 
 Definition Inv (s : st) : Prop := Forall (fun e => ev_ok e = true) (snd s).
@@ -65,40 +65,55 @@ Proof.
     destruct o; try (apply (loop_inv ev var ifs _ Hev IH); exact H1). exact H1.
 Qed.
 
-Lemma consume_inv ev elt gens stop_on s : preserves ev -> Inv s -> Inv (snd (consume truthy elems ev elt gens stop_on s)).
+Lemma consume_inv ev elt gens stop_on keep s : preserves ev -> Inv s -> Inv (snd (consume truthy elems ev elt gens stop_on keep s)).
 Proof.
-  intros Hev Hs. unfold consume. destruct (existsb _ gens); [exact Hs|]. apply level_inv; assumption.
+  intros Hev Hs. unfold consume. destruct (existsb _ gens); [exact Hs|].
+  pose proof (level_inv ev elt stop_on Hev gens s Hs) as HL.
+  destruct (level truthy elems ev elt stop_on gens s) as [[[e|] stopped] s1]; cbn [snd] in *; [exact HL|].
+  destruct (stopped && keep); exact HL.
 Qed.
 
-Lemma helper_events_ok c vs : Forall (fun e => ev_ok e = true) (helper_events F helper_fields c vs).
+Lemma until_dunder_ok l : Forall (fun n => starts_dunder n = false) (fst (until_dunder l)).
 Proof.
-  unfold helper_events. destruct c; try constructor. destruct vs as [|a [|b t]]; try constructor.
-  destruct (mem name (helper_names F)); [|constructor]. apply Forall_forall. intros e He.
-  apply in_map_iff in He. destruct He as (x & <- & _). reflexivity.
+  induction l as [|n t IH]; cbn [until_dunder]; [constructor|].
+  destruct (starts_dunder n) eqn:D; [constructor|].
+  destruct (until_dunder t) as [a b]. cbn [fst] in *. constructor; assumption.
 Qed.
 
-Lemma do_call_inv ev args c vs nk s : preserves ev -> allowed F c = true -> Inv s ->
+Lemma helper_events_ok c vs : helpers_refuse_dunder F = true ->
+  Forall (fun e => ev_ok e = true) (fst (helper_events F helper_fields c vs)).
+Proof.
+  intros HR. unfold helper_events. destruct c; try constructor. destruct vs as [|a [|b t]]; try constructor.
+  destruct (mem name (helper_names F)); [|constructor]. rewrite HR.
+  pose proof (until_dunder_ok (helper_fields b)) as HU.
+  destruct (until_dunder (helper_fields b)) as [ok hit]. cbn [fst] in *.
+  apply Forall_forall. intros e He. apply in_map_iff in He. destruct He as (x & <- & Hx).
+  cbn [ev_ok]. rewrite Forall_forall in HU. rewrite (HU x Hx). reflexivity.
+Qed.
+
+Lemma do_call_inv ev args c vs nk s : helpers_refuse_dunder F = true -> preserves ev -> allowed F c = true -> Inv s ->
   Inv (snd (do_call F truthy elems helper_fields ev args c vs nk s)).
 Proof.
-  intros Hev Hal Hs. unfold do_call.
-  set (s0 := (fst s, snd s ++ [EvCall c (List.length vs + nk)] ++ helper_events F helper_fields c vs)).
+  intros HR Hev Hal Hs. unfold do_call.
+  set (s0 := (fst s, snd s ++ [EvCall c (List.length vs + nk)] ++ fst (helper_events F helper_fields c vs))).
   assert (H0 : Inv s0).
-  { apply Inv_app; [exact Hs|]. constructor; [exact Hal|apply helper_events_ok]. }
+  { apply Inv_app; [exact Hs|]. constructor; [exact Hal|apply helper_events_ok; exact HR]. }
+  destruct (snd (helper_events F helper_fields c vs)); [exact H0|].
   destruct c; try exact H0.
   destruct args as [|a [|a2 args]]; try exact H0.
   2: { destruct a; exact H0. }
   destruct a; try exact H0.
   destruct (String.eqb name "any" || String.eqb name "all"); [|exact H0].
-  match goal with |- context [consume ?t ?e ?v ?el ?g ?so ?s] =>
-    pose proof (consume_inv ev el g so s Hev H0) as HL; destruct (consume t e v el g so s) as [[[e'|] b] s1] end;
+  match goal with |- context [consume ?t ?e ?v ?el ?g ?so ?k ?s] =>
+    pose proof (consume_inv ev el g so k s Hev H0) as HL; destruct (consume t e v el g so k s) as [[[e'|] b] s1] end;
     cbn [snd] in *; exact HL.
 Qed.
 
 (* the evaluator (with the identity guard) never does anything the sandbox forbids, whatever the expression *)
-Theorem eval_preserves : guard_by_identity F = true ->
+Theorem eval_preserves : guard_by_identity F = true -> helpers_refuse_dunder F = true ->
   forall fuel, preserves (eval F truthy elems helper_fields fuel).
 Proof.
-  intros G. induction fuel as [|f IH]; intros s n Hs; [exact Hs|].
+  intros G HR. induction fuel as [|f IH]; intros s n Hs; [exact Hs|].
   cbn [eval]. set (ev := eval F truthy elems helper_fields f) in *.
   destruct n.
   - exact Hs.
@@ -111,25 +126,26 @@ Proof.
   - pose proof (eval_list_inv ev IH vals s Hs) as H. destruct (eval_list ev s vals) as [[[vs|] [e|]] s1]; cbn [snd] in *; try exact H;
     (apply Inv_app; [exact H|]; apply Forall_app; split; [|constructor; [reflexivity|constructor]];
      apply Forall_forall; intros e0 He; apply in_map_iff in He; destruct He as (x & <- & _); reflexivity).
-  - pose proof (IH s n1 Hs) as H1. destruct (ev s n1) as [[a|e] s1]; cbn [snd] in *; [|exact H1].
+  - destruct known_op; [|exact Hs].
+    pose proof (IH s n1 Hs) as H1. destruct (ev s n1) as [[a|e] s1]; cbn [snd] in *; [|exact H1].
     pose proof (IH s1 n2 H1) as H2. destruct (ev s1 n2) as [[b|e] s2]; cbn [snd] in *; [|exact H2].
-    destruct a; destruct b; try exact H2; (destruct known_op; [apply Inv_emit; [exact H2|reflexivity]|exact H2]).
+    destruct a; destruct b; try exact H2; (apply Inv_emit; [exact H2|reflexivity]).
   - destruct known_op; [|exact Hs].
     pose proof (IH s n Hs) as H1. destruct (ev s n) as [[a|e] s1]; cbn [snd] in *; [|exact H1].
     apply Inv_emit; [exact H1|reflexivity].
   - pose proof (IH s n Hs) as H1. destruct (ev s n) as [[a|e] s1]; cbn [snd] in *; [|exact H1].
-    generalize (OConst true) as last. revert a s1 H1.
-    induction comps as [|[is_in cn] comps IHc]; intros a s1 H1 last; [exact H1|].
+    generalize (OConst true) as last. generalize (@nil string) as pend. revert a s1 H1.
+    induction comps as [|[is_in cn] comps IHc]; intros a s1 H1 pend last; [exact H1|].
     pose proof (IH s1 cn H1) as H2. destruct (ev s1 cn) as [[b|e] s2]; cbn [snd] in *; [|exact H2].
     assert (HC : Inv (snd (match is_in, cn, a with
                            | true, NGen elt gens, OMissing => (None, false, s2)
-                           | true, NGen elt gens, _ => consume truthy elems ev elt gens (fun v => truthy (OOp [v; a])) s2
+                           | true, NGen elt gens, _ => consume truthy elems ev elt gens (fun v => truthy (OOp [v; a])) true s2
                            | _, _, _ => (None, false, s2)
                            end))).
     { destruct is_in; [|exact H2]. destruct cn; try exact H2. destruct a; try exact H2; apply consume_inv; assumption. }
     destruct (match is_in, cn, a with
               | true, NGen elt gens, OMissing => (None, false, s2)
-              | true, NGen elt gens, _ => consume truthy elems ev elt gens (fun v => truthy (OOp [v; a])) s2
+              | true, NGen elt gens, _ => consume truthy elems ev elt gens (fun v => truthy (OOp [v; a])) true s2
               | _, _, _ => (None, false, s2)
               end) as [[[e'|] b'] s2']; cbn [snd] in HC; [exact HC|].
     assert (H3 : Inv (emit s2' (EvOp [a; b]))) by (apply Inv_emit; [exact HC|reflexivity]).
